@@ -134,13 +134,10 @@ def modeOf (m : String) : Option Bool :=
 `script` / `cellout` … = H(whole entity) -/
 def preimage (what : String) (bs : Bytes) : Option Bytes :=
   match what with
-  | "tx" =>
-    match dynHeader bs with
-    | some (a :: b :: _) => if verify false CkbVerif.Gen.Schemas.S.Transaction bs then some (slice bs a b) else none
-    | _ => none
+  | "tx" => if verify false CkbVerif.Gen.Schemas.S.Transaction bs then tableFieldBytes bs 0 else none
   | "wtx" => if verify false CkbVerif.Gen.Schemas.S.Transaction bs then some bs else none
   | "hdr" => if verify false CkbVerif.Gen.Schemas.S.Header bs then some bs else none
-  | "pow" => if verify false CkbVerif.Gen.Schemas.S.Header bs then some (slice bs 0 (size CkbVerif.Gen.Schemas.S.RawHeader)) else none
+  | "pow" => if verify false CkbVerif.Gen.Schemas.S.Header bs then some (structFieldBytes [CkbVerif.Gen.Schemas.S.RawHeader, CkbVerif.Gen.Schemas.S.Uint128] bs 0) else none
   | _ => none
 
 def stepMol (ts : List String) : String :=
